@@ -392,6 +392,7 @@ func execProxyRaw(e *Env, pp any) {
 		spoof    int
 		sentEv   int
 		written  bool
+		orig     *Rpc // a copy of what was written, taken before the proxy could touch it
 	}
 	var sent []*sentEnv
 	bySender := map[int][]int{}
@@ -551,6 +552,7 @@ func execProxyRaw(e *Env, pp any) {
 					e.Note("fault.peer.noheader")
 				}
 				end := rp.end
+				se.orig = proto.Clone(r).(*Rpc)
 				st := e.Log("peer.send", name, i, "")
 				histMu.Lock()
 				sendStart[payload] = st
@@ -723,6 +725,32 @@ func execProxyRaw(e *Env, pp any) {
 			}
 			if h.GetDestination() != se.hdrDest {
 				e.Violate(prop, "destination-rewrite", "proxy", "envelope %d arrived with destination %q, want %q", se.idx, h.GetDestination(), se.hdrDest)
+			}
+			if se.orig != nil {
+				// everything that is not a routing field: status, body, trailer, reset
+				// marker, header metadata (compared on copies with the routing fields cleared)
+				a, b := proto.Clone(se.orig).(*Rpc), proto.Clone(g.rpc).(*Rpc)
+				for _, x := range []*Rpc{a, b} {
+					if x.Header != nil {
+						x.Header.Destination, x.Header.ProxyRecord, x.Header.ProxyNext = "", nil, nil
+					}
+				}
+				if !proto.Equal(a, b) {
+					what := "payload"
+					switch {
+					case (a.Reset_ == nil) != (b.Reset_ == nil) || a.GetReset_().GetType() != b.GetReset_().GetType():
+						what = "reset"
+					case !proto.Equal(a.Status, b.Status):
+						what = "status"
+					case !proto.Equal(a.Trailer, b.Trailer):
+						what = "trailer"
+					case !proto.Equal(a.Body, b.Body):
+						what = "body"
+					case !proto.Equal(a.Header, b.Header):
+						what = "header"
+					}
+					e.Violate(prop, "altered", "proxy."+what, "envelope %d arrived with its %s changed: sent %v, delivered %v", se.idx, what, trunc(a.String()), trunc(b.String()))
+				}
 			}
 			np := 0
 			for _, r := range h.GetProxyRecord() {
